@@ -95,6 +95,8 @@ func (u *fetchUnit) reset(pc int32, cleanPending bool) {
 	u.Reset()
 	u.pc = pc
 	u.toCleanPending = cleanPending
+	// There is something to fetch again, even if the end of the program had been reached
+	u.complete = false
 }
 
 func (u *fetchUnit) flush(pc int32) {
